@@ -248,7 +248,9 @@ func (group *AbacoGroup) fillMissingPackets() (bytesAdded, packetsAdded, framesA
 			snexpect++
 		}
 		newq = append(newq, p)
-		snexpect++
+		if sn == snexpect { // packets left over from earlier ticks (sn <= lastSN) were counted then
+			snexpect++
+		}
 	}
 	if packetsAdded > 0 {
 		group.queue = newq
